@@ -113,6 +113,23 @@ def all_requests(rng, mt, kt):
     reqs.append(Req('set', 'UbxCfgValSetAction(big)', lambda big=big: VS([CfgKeyData.from_key(k, v) for k, v in big]), mt['UbxCfgValSetAction']['cid']))
     # an application-defined poll whose response class shares the class/id of a library class (CFG-PRT, other port type)
     reqs.append(app_defined_poll(mt))
+    reqs += app_big_frames()
+    # frames that were decoded from a payload (e.g. a poll answer) and then edited, sent back by set / fire_and_forget
+    RSc = mt['UbxCfgRstAction']['cls']
+
+    def rst_edited():
+        fr = RSc.construct(bytearray(b'\x00\x00\x08\x00'))
+        fr.cold_start()
+        return fr
+    reqs.append(Req('fire', 'UbxCfgRstAction(decoded+edited)', rst_edited, mt['UbxCfgRstAction']['cid']))
+    RTc = mt['UbxCfgRate']['cls']
+
+    def rate_edited():
+        fr = RTc.construct(bytearray(b'\xe8\x03\x01\x00\x01\x00'))
+        fr.set_rate_in_hz(4)
+        return fr
+    reqs.append(Req('set', 'UbxCfgRate(decoded+edited)', rate_edited, mt['UbxCfgRate']['cid']))
+    reqs.append(Req('fire', 'UbxCfgRate(decoded+edited)', rate_edited, mt['UbxCfgRate']['cid']))
     UT = mt['UbxMgaIniTimeUtc']['cls']
 
     def utc():
@@ -170,6 +187,25 @@ def app_defined_poll(mt):
     return Req('poll', 'AppCfgPrtUsbPoll', _APP['poll'], (6, 0), 'AppCfgPrtUsb', 'F/' + R.layout_str(lay), entry)
 
 
+def app_big_frames():
+    """Application-defined frame with a payload above 1016 bytes (larger than anything the library builds itself)."""
+    from ubxlib.cid import UbxCID
+    from ubxlib.frame import UbxFrame
+    from ubxlib.types import U1, Padding
+    if 'big' not in _APP:
+        class AppBigFrame(UbxFrame):
+            CID = UbxCID(6, 0x99)
+            NAME = 'APP-BIG'
+
+            def __init__(self):
+                super().__init__()
+                self.f.add(U1('kind'))
+                self.f.add(Padding(1200, 'blob'))
+                self.f.kind = 7
+        _APP['big'] = AppBigFrame
+    return [Req('fire', 'AppBigFrame', _APP['big'], (6, 0x99)), Req('set', 'AppBigFrame', _APP['big'], (6, 0x99))]
+
+
 def good_answer(rng, rq, kt, variant=None):
     """(list of frames that together form a correct answer, description)"""
     c, i = rq.cid
@@ -216,7 +252,7 @@ def fault_events(rng, rq, kt, fault, mode, delay=100, others=()):
     elif fault == 'nak_first':
         data = G.frame(5, 0, bytes([c, i])) if rq.op == 'poll' else G.frame(5, 1, bytes([i, c]) if c != i else bytes([c + 1, i]))
     elif fault == 'rejected_mga':
-        data = G.frame(0x13, 0x60, bytes([0, 0, rng.randrange(1, 7), i, 1, 2, 3, 4]))
+        data = G.frame(0x13, 0x60, bytes([rng.choice([0, 0, 2, 255]), 0, rng.choice([0, 0, 1, 6]), i, 1, 2, 3, 4]))
     elif fault == 'unrelated':
         data = b''.join(Q.inert_traffic(rng, rq.filt(), [o for o in others if o not in rq.filt()]) for _ in range(3))
     elif fault == 'stale_ck':
@@ -254,14 +290,15 @@ def fault_events(rng, rq, kt, fault, mode, delay=100, others=()):
     return Q.chunk(rng, data, mode, DTS)
 
 
-def scenario(rng, reqs, kt, n_req=1, force=None):
+def scenario(rng, reqs, kt, n_req=1, force=None, tx_dt=0):
     """A server configuration, a script and n_req requests. Returns dict."""
     retries = rng.choice([0, 0, 1, 2, 2, 3, 5, 10])
     delay = rng.choice([0, 1, 100, 100, 250, 1800, 5000])
     idle = rng.choice([3, 13, 101, 251])
     if delay // idle > 300:          # keep the number of idle loop iterations per attempt moderate (the model's ghost trace is quadratic)
         idle = delay // 300 + 1
-    rqs = [rng.choice(reqs) for _ in range(n_req)]
+    mgas = [r for r in reqs if r.op == 'mga']
+    rqs = [rng.choice(mgas) if (mgas and rng.random() < 0.12) else rng.choice(reqs) for _ in range(n_req)]
     attempts = []
     plan = []
     others = sorted(set(r.cid for r in rqs))
@@ -290,6 +327,8 @@ def scenario(rng, reqs, kt, n_req=1, force=None):
                 plan.append(('good', a, late))
                 break
             fault = rng.choice(FAULTS)
+            if rq.op == 'mga' and rng.random() < 0.4:
+                fault = 'rejected_mga'
             if fault == 'txfail':
                 this.append((False, []))
             else:
@@ -297,7 +336,8 @@ def scenario(rng, reqs, kt, n_req=1, force=None):
             plan.append((fault, a))
         attempts += this
     pending = fault_events(rng, rqs[0], kt, rng.choice(['silence', 'silence', 'garbage', 'truncated']), 'random') if rng.random() < 0.3 else []
-    script = {'pending': pending, 'attempts': attempts, 'idle': idle, 'drain': rng.random() < 0.5}
+    script = {'pending': pending, 'attempts': attempts, 'idle': idle, 'drain': rng.random() < 0.5, 'tx_dt': tx_dt,
+              'bad_cfg': rng.choice([(), (), (('retries', 11),), (('retries', -1), ('delay', 5001)), (('delay', -1),), (('retries', 100), ('delay', 100000))])}
     return {'retries': retries, 'delay': delay, 'script': script, 'reqs': rqs, 'plan': plan}
 
 
